@@ -404,23 +404,102 @@ End Run.
 (* ------------------------------------------------------------------------------------------------ *)
 (* Measures                                                                                          *)
 (* ------------------------------------------------------------------------------------------------ *)
-(* number of callback invocations of a fault-free render.
-   top = at page level (every component is a root there); dropped = inside a region whose output is
-   discarded (nested components are prepared there but never rendered; in-place roots render fully) *)
-Fixpoint npoints_items (top dropped : bool) (l : items) : nat :=
-  match l with INil => O | ICons i r => npoints_item top dropped i + npoints_items top dropped r end
-with npoints_item (top dropped : bool) (i : item) : nat :=
+(* number of callback invocations of a fault-free render, split as the two passes consume them:
+   pp = while a template's items run (nested components are only prepared there: get_context_data and its
+        inject calls; a root component renders completely in place),
+   dp = while the post-render queue processes the nested components prepared by those items
+        (on_render_before, the component's own items, its children, on_render_after);
+   top = at page level, where every component is a root. *)
+Fixpoint pp_items (top : bool) (l : items) : nat :=
+  match l with INil => O | ICons i r => pp_item top i + pp_items top r end
+with pp_item (top : bool) (i : item) : nat :=
   match i with
   | IPoint => 1
-  | ISlot _ b => npoints_items top dropped b
-  | IProvide b => npoints_items top dropped b
-  | IDrop b => npoints_items top true b
+  | ISlot _ b => pp_items top b
+  | IProvide b => pp_items top b
+  | IDrop b => pp_items top b
   | IComp isroot _ _ _ (Comp _ np body) =>
-      if isroot || top then np + 2 + npoints_items false false body
-      else if dropped then np
-      else np + 2 + npoints_items false false body
+      if isroot || top then np + (1 + pp_items false body + dp_items body + 1) else np
+  end
+with dp_items (l : items) : nat :=
+  match l with INil => O | ICons i r => dp_item i + dp_items r end
+with dp_item (i : item) : nat :=
+  match i with
+  | IPoint => O
+  | ISlot _ b => dp_items b
+  | IProvide b => dp_items b
+  | IDrop _ => O
+  | IComp isroot _ _ _ (Comp _ np body) =>
+      if isroot then O else 1 + pp_items false body + dp_items body + 1
   end.
-Definition npoints (t : items) : nat := npoints_items true false t.
+Definition npoints (t : items) : nat := pp_items true t.
+
+(* ------------------------------------------------------------------------------------------------ *)
+(* S-model: what the property demands of the outcome.  The exception raised by callback invocation k  *)
+(* travels up through the slot markers and component_error_message wrappers standing around that      *)
+(* invocation; no table is involved.  (Repaired message rule: only an added prefix line is replaced.) *)
+(* ------------------------------------------------------------------------------------------------ *)
+Inductive sres := SOk (k : option nat) | SExn (e : exn).
+
+Section Spec.
+Variable umsg : list mline.
+
+Definition sp_point (k : option nat) : sres :=
+  match k with Some O => SExn (EUser [] umsg) | Some (S j) => SOk (Some j) | None => SOk None end.
+Fixpoint sp_points (n : nat) (k : option nat) : sres :=
+  match n with O => SOk k | S m => match sp_point k with SOk k' => sp_points m k' | SExn e => SExn e end end.
+Definition sp_bind (r : sres) (f : option nat -> sres) : sres :=
+  match r with SOk k => f k | SExn e => SExn e end.
+Definition sp_map (h : exn -> exn) (r : sres) : sres :=
+  match r with SOk k => SOk k | SExn e => SExn (h e) end.
+
+Definition sp_deferred (path : list lbl) (name : N)
+    (rp : option nat -> sres) (rd : list lbl -> option nat -> sres) (k : option nat) : sres :=
+  let full := path ++ [LName name] in
+  sp_bind (sp_map (annotate cfg_fixed (tl full)) (sp_bind (sp_point k) rp))
+    (fun k1 => sp_bind (rd full k1) sp_point).
+
+Fixpoint sp_prep_items (top : bool) (l : items) (k : option nat) {struct l} : sres :=
+  match l with
+  | INil => SOk k
+  | ICons i r => sp_bind (sp_prep_item top i k) (sp_prep_items top r)
+  end
+with sp_prep_item (top : bool) (i : item) (k : option nat) {struct i} : sres :=
+  match i with
+  | IPoint => sp_point k
+  | ISlot l b => sp_map (slot_mark l) (sp_prep_items top b k)
+  | IProvide b => sp_prep_items top b k
+  | IDrop b => sp_prep_items top b k
+  | IComp isroot _ _ _ (Comp name np body) =>
+      if isroot || top
+      then sp_map (annotate cfg_fixed [LName name])
+             (sp_bind (sp_points np k)
+                (sp_deferred [] name (sp_prep_items false body) (fun p => sp_defer_items p body)))
+      else sp_map (annotate cfg_fixed [LName name]) (sp_points np k)
+  end
+with sp_defer_items (path : list lbl) (l : items) (k : option nat) {struct l} : sres :=
+  match l with
+  | INil => SOk k
+  | ICons i r => sp_bind (sp_defer_item path i k) (sp_defer_items path r)
+  end
+with sp_defer_item (path : list lbl) (i : item) (k : option nat) {struct i} : sres :=
+  match i with
+  | IPoint => SOk k
+  | ISlot _ b => sp_defer_items path b k
+  | IProvide b => sp_defer_items path b k
+  | IDrop _ => SOk k
+  | IComp isroot _ _ _ (Comp name np body) =>
+      if isroot then SOk k
+      else sp_deferred path name (sp_prep_items false body) (fun p => sp_defer_items p body) k
+  end.
+
+Definition spec_outcome (t : items) (f : option nat) : outcome :=
+  match sp_prep_items true t f with
+  | SOk _ => OOk
+  | SExn (EUser comps msg) => OUser comps msg
+  | SExn (EInternal k) => OInternal k
+  end.
+End Spec.
 
 (* ------------------------------------------------------------------------------------------------ *)
 (* Observations compared with the implementation                                                     *)
